@@ -127,19 +127,25 @@ fn emit(text: &mut String, form: usize, ctx: usize, k: usize, items: &mut Vec<It
 
 pub const SUPPORT: &str = "pragma circom 2.1.0;\ntemplate Sub() {\n    signal input in;\n    signal output out;\n    out <== in;\n}\ntemplate Sub2() {\n    signal input in;\n    signal output o1;\n    signal output o2;\n    o1 <== in;\n    o2 <== in;\n}\n";
 
-/// kind: 0 template, 1 custom template
+/// kind % 3: 0 template, 1 custom template, 2 parallel template; kind >= 3: the file also holds a
+/// main component (the program path through the definition merger instead of the library path).
 pub fn build(seq: &[(usize, usize)], kind: usize) -> Built {
+    let with_main = kind >= 3;
+    let kind = kind % 3;
     let mut text = String::from(SUPPORT);
     if kind == 1 {
         text = text.replacen("pragma circom 2.1.0;\n", "pragma circom 2.1.0;\npragma custom_templates;\n", 1);
     }
-    text.push_str(if kind == 1 { "template custom M(n) {\n" } else { "template M(n) {\n" });
+    text.push_str(["template M(n) {\n", "template custom M(n) {\n", "template parallel M(n) {\n"][kind]);
     text.push_str("    signal input in;\n    signal output s;\n    signal t2;\n    signal a[4];\n    component c = Sub();\n    component cs[2];\n");
     let mut items = Vec::new();
     for (k, (form, ctx)) in seq.iter().enumerate() {
         emit(&mut text, *form, *ctx, k, &mut items);
     }
     text.push_str("}\n");
+    if with_main {
+        text.push_str("component main = M(1);\n");
+    }
     Built { text, items }
 }
 
@@ -152,7 +158,12 @@ pub fn check(seq: &[(usize, usize)], kind: usize, dir: &Path, case: &Value) -> (
     let built = build(seq, kind);
     let generated: usize = built.items.iter().map(|i| i.arrows.len()).sum();
     // Independent count by token scan of the body of M.
-    let body_start = built.text.find("template M(").or_else(|| built.text.find("template custom M(")).unwrap_or(0);
+    let body_start = built
+        .text
+        .find("template M(")
+        .or_else(|| built.text.find("template custom M("))
+        .or_else(|| built.text.find("template parallel M("))
+        .unwrap_or(0);
     let scanned = arrow_tokens(&built.text[body_start..]);
     if scanned != generated {
         out.push(Violation {
@@ -198,7 +209,7 @@ pub fn check(seq: &[(usize, usize)], kind: usize, dir: &Path, case: &Value) -> (
     let mut push = |sig: &str, what: String, expected: String, observed: String| {
         out.push(Violation { signature: sig.to_string(), what, case: case.clone(), expected, observed: format!("{observed}\n{}", built.text) });
     };
-    if kind == 1 {
+    if kind % 3 == 1 {
         if !arrows.is_empty() {
             push("custom-template-flagged", "signal assignment findings in a custom template".into(), "none".into(), format!("{:?}", arrows.iter().map(|f| f.short()).collect::<Vec<_>>()));
         }
@@ -324,8 +335,8 @@ pub fn run(run: &Run) {
         "templates whose body is every sequence of 1..={max_len} items from 14 forms {{s <-- e, e --> s, a[0] <-- e, \
          a[i] <-- e, c.in <-- e, cs[i].in <-- e, signal t <-- e, (s,t2) <-- (e,in), (s,_) <-- Sub2()(e), \
          t2 <== Sub()(in <-- e), s <== e, s === e, a[0] === e, s <-- in*in}} x contexts {{top, inside if, \
-         inside for}}, e alternating linear / cubic; plus every single item as custom template and a \
-         function; non-trivial = body with at least one `<--`"
+         inside for}}, e alternating linear / cubic; plus every sequence of <= 2 items as parallel template and in a file with a main component, every \
+         single item as custom template (with and without main), and a function; non-trivial = body with at least one `<--`"
     ));
     let root = work_dir("c08");
     let radix = (FORMS * CONTEXTS) as u64;
@@ -348,11 +359,15 @@ pub fn run(run: &Run) {
                 }
             }
             run.violations(vs);
-            if len == 1 {
-                let case = json!({"kind": "sequence", "len": len, "code": code, "template": 1});
-                let (vs, _) = check(&seq, 1, &dir, &case);
-                run.eval(1);
-                run.violations(vs);
+            if len <= 2 {
+                // custom / parallel templates, and every kind again in a file with a main component
+                let kinds: &[usize] = if len == 1 { &[1, 2, 3, 4, 5] } else { &[2, 3] };
+                for kind in kinds {
+                    let case = json!({"kind": "sequence", "len": len, "code": code, "template": kind});
+                    let (vs, _) = check(&seq, *kind, &dir, &case);
+                    run.eval(1);
+                    run.violations(vs);
+                }
             }
         });
     }
